@@ -166,8 +166,12 @@ fn check_hist(c: &HistCase) -> Outcome {
                     ));
                 }
                 if expect.is_ok() {
+                    // a delivery that is caught but not yet taken stays pending only while the
+                    // signal remains trapped (command action replaced by a command action)
+                    if !(m[i].user == Some(Act::Command) && act == Act::Command) {
+                        m[i].pending = false;
+                    }
                     m[i].user = Some(act);
-                    m[i].pending = false;
                 } else if expect == Err("InitiallyIgnored") {
                     classes.push("initially-ignored-refused");
                 }
@@ -609,6 +613,10 @@ pub enum TAct {
     /// `mark T $?; kill -s USR2 $$; (mark S; mark S)` - the action forks a subshell while USR2 is
     /// caught but not yet handled: the subshell must not run (or keep) the parent's USR2 trap
     SendUsr2Sub,
+    /// `mark T $?; kill -s USR2 $$; trap 'mark U $?' USR2` - the USR1 action sets the trap for USR2
+    /// again (same action) while a USR2 delivery is caught but not yet handled: the delivery must
+    /// not be forgotten
+    SendUsr2Retrap,
 }
 
 #[derive(Clone, Debug, PartialEq, Eq, Hash, Serialize, Deserialize)]
@@ -621,6 +629,9 @@ pub enum CStep {
     KillBoth,
     /// `(kill -s USR2 $$; kill -s USR1 $$)`
     KillBothRev,
+    /// `kill -s USR1 $$ | st 0`: the signal arrives while the shell runs a multi-command pipeline;
+    /// the action is due when the pipeline has finished, before the command that follows it
+    KillPipe,
 }
 
 #[derive(Clone, Debug, PartialEq, Eq, Hash, Serialize, Deserialize)]
@@ -630,6 +641,10 @@ pub struct ChainCase {
     /// end the script with a self-kill instead of a final mark (actions must still run before exit)
     pub last_kill: bool,
     pub sched: Option<u64>,
+    /// the steps are written on one line, separated by `;` (one list, parsed and executed as a
+    /// whole) instead of one per line
+    #[serde(default)]
+    pub sameline: bool,
 }
 
 fn check_chain(c: &ChainCase) -> Outcome {
@@ -638,12 +653,14 @@ fn check_chain(c: &ChainCase) -> Outcome {
         TAct::SendUsr2 => "mark T $?; kill -s USR2 $$",
         TAct::Return => "mark T $?; return 7",
         TAct::SendUsr2Sub => "mark T $?; kill -s USR2 $$; (mark S; mark S)",
+        TAct::SendUsr2Retrap => "mark T $?; kill -s USR2 $$; trap \"mark U \\$?\" USR2",
     };
-    let send2 = matches!(c.t_action, TAct::SendUsr2 | TAct::SendUsr2Sub);
+    let send2 = matches!(c.t_action, TAct::SendUsr2 | TAct::SendUsr2Sub | TAct::SendUsr2Retrap);
     let mut script = format!("trap '{t_text}' USR1\ntrap 'mark U $?' USR2\n");
     if c.t_action == TAct::Return {
         script.push_str("h1() { kill -s USR1 $$; mark X; }\nh2() { (kill -s USR1 $$; kill -s USR2 $$); mark X; }\nh3() { (kill -s USR2 $$; kill -s USR1 $$); mark X; }\n");
     }
+    let head_len = script.len();
     // segments: expected (T count, U count) between consecutive numbered marks, and the `$?` the
     // mark closing the segment must see (None = not asserted)
     let mut segs: Vec<(u32, u32, Option<i32>)> = vec![];
@@ -665,13 +682,14 @@ fn check_chain(c: &ChainCase) -> Outcome {
                 u = 0;
                 status = Some(0);
             }
-            CStep::Kill1 => {
+            CStep::Kill1 | CStep::KillPipe => {
                 deliveries += 1;
                 t += 1;
+                let text = if matches!(s, CStep::KillPipe) { "kill -s USR1 $$ | st 0\n" } else { "kill -s USR1 $$\n" };
                 match c.t_action {
-                    TAct::Plain => script.push_str("kill -s USR1 $$\n"),
-                    TAct::SendUsr2 | TAct::SendUsr2Sub => {
-                        script.push_str("kill -s USR1 $$\n");
+                    TAct::Plain => script.push_str(text),
+                    TAct::SendUsr2 | TAct::SendUsr2Sub | TAct::SendUsr2Retrap => {
+                        script.push_str(text);
                         u += 1;
                     }
                     TAct::Return => script.push_str("h1\n"),
@@ -686,7 +704,7 @@ fn check_chain(c: &ChainCase) -> Outcome {
                 match c.t_action {
                     TAct::Plain => script.push_str(if rev { "(kill -s USR2 $$; kill -s USR1 $$)\n" } else { "(kill -s USR1 $$; kill -s USR2 $$)\n" }),
                     // two USR2 deliveries could coalesce: send USR1 only, the action sends USR2
-                    TAct::SendUsr2 | TAct::SendUsr2Sub => script.push_str("(kill -s USR1 $$)\n"),
+                    TAct::SendUsr2 | TAct::SendUsr2Sub | TAct::SendUsr2Retrap => script.push_str("(kill -s USR1 $$)\n"),
                     TAct::Return => script.push_str(if rev { "h3\n" } else { "h2\n" }),
                 }
                 status = if c.t_action == TAct::Return { None } else { Some(0) };
@@ -705,6 +723,11 @@ fn check_chain(c: &ChainCase) -> Outcome {
     } else {
         script.push_str(&format!("mark {next}\n"));
         segs.push((t, u, status));
+    }
+    if c.sameline {
+        // the trap and function definitions stay on lines of their own; the steps form one line
+        let steps: Vec<&str> = script[head_len..].lines().collect();
+        script = format!("{}{}\n", &script[..head_len], steps.join("; "));
     }
     let mut s = vsys::Setup::script(&script);
     if let Some(seed) = c.sched {
@@ -806,12 +829,16 @@ fn check_chain(c: &ChainCase) -> Outcome {
         return Outcome::fail(ctx(format!("{} subshells of the USR1 action left a trace, expected one per delivery: {:?}", per_child.len(), per_child)));
     }
     let both = c.steps.iter().any(|s| matches!(s, CStep::KillBoth | CStep::KillBothRev));
+    let in_pipe = c.t_action != TAct::Return && c.steps.iter().any(|s| matches!(s, CStep::KillPipe));
     Outcome::pass(deliveries > 0)
+        .class_if(c.sameline, "steps-on-one-line")
+        .class_if(in_pipe, "delivery-during-a-multi-command-pipeline")
         .class(match c.t_action {
             TAct::Plain => "chain:plain",
             TAct::SendUsr2 => "chain:signal-during-action",
             TAct::Return => "chain:action-returns",
             TAct::SendUsr2Sub => "chain:subshell-forked-while-a-signal-is-pending",
+            TAct::SendUsr2Retrap => "chain:trap-set-again-while-its-signal-is-pending",
         })
         .class_if(both, "two-signals-pending-at-one-boundary")
         .class_if(last_kill, "delivery-by-last-command")
@@ -826,6 +853,7 @@ fn arb_cstep() -> impl Strategy<Value = CStep> {
         2 => Just(CStep::Kill1),
         2 => Just(CStep::KillBoth),
         1 => Just(CStep::KillBothRev),
+        2 => Just(CStep::KillPipe),
     ]
 }
 
@@ -906,11 +934,12 @@ pub fn run(ctx: &Ctx, st: &mut Stats) {
     CHAIN.run_random(ctx, st, cases, || {
         (
             prop::collection::vec(arb_cstep(), 1..7),
-            prop::sample::select(vec![TAct::Plain, TAct::SendUsr2, TAct::Return, TAct::SendUsr2Sub]),
+            prop::sample::select(vec![TAct::Plain, TAct::SendUsr2, TAct::Return, TAct::SendUsr2Sub, TAct::SendUsr2Retrap]),
             prop::bool::weighted(0.3),
             prop::option::weighted(0.5, any::<u64>()),
+            prop::bool::weighted(0.4),
         )
-            .prop_map(|(steps, t_action, last_kill, sched)| ChainCase { steps, t_action, last_kill, sched })
+            .prop_map(|(steps, t_action, last_kill, sched, sameline)| ChainCase { steps, t_action, last_kill, sched, sameline })
     });
 }
 
